@@ -711,12 +711,33 @@ func TestProbe_positions(t *testing.T) {
 		"//a/b[position()=last()]":   "b3 b4",
 		"/r/a/b[position()<last()]":  "b1 b2",
 		"/r/a[1]/b[position()!=2]":   "b1 b3",
+		"//a/b[1]":                   "b1 b4",
+		"//a/b[2]":                   "b2",
+		"/r/a/b[last()][@i]":         "b3 b4",
+		"/r/a/*[2][self::c]":         "c",
+		"/r/a/*[2][self::b]":         "",
+		"/r/*/b[1]":                  "b1 b4",
+		"//*/b[2]":                   "b2",
+		"/r/a[1]/b[last()-1]":        "b2",
+		"/r/a/b[position()=last()-1]": "b2",
+		"/r/a/b[1][@i=1]":            "b1",
+		"/r/a/b[2][@i=1]":            "",
+		"/r/a/b[position()>=2][@i>2]": "b3",
+		"/r/a[b][1]":                 "a",
+		"/r/a[2][b]":                 "a",
+		"/r/a[3][b]":                 "",
+		"/r/*[4]":                    "b5",
+		"/r/*[5]":                    "",
+		"/r/a/b[0]":                  "",
+		"/r/a/b[4]":                  "",
+		"/r/a/b[1.0]":                "b1 b4",
 	}
 	// Divergences seen by this probe that lie outside the statements of C02/C03 (kept as a record,
 	// not asserted): /r/a/b[@i>1][1] yields b2 only (XPath: b2 b4 — a positional predicate after a
 	// boolean one counts across parents); (//b)[last()] yields b3 (XPath: b5) and
 	// (/r/a/b)[position()<3] yields b1 b2 b4 (XPath: b1 b2) — on a parenthesised path only [n] is
-	// counted over the whole path.
+	// counted over the whole path; /r/a/b[last()][last()] yields b4 only (a second positional
+	// predicate counts across parents).
 	for ex, want := range cases {
 		got := strings.Join(sel(ex), " ")
 		if got != want {
